@@ -9,8 +9,11 @@ and for `sort` what the user function was given and what it returned.  Tables ar
 the positional one (`ids()`, `matrix_data`, `metadata()`), so a stale id -> position index shows.
 Lean evaluates the declarative predicate `holds` on those observations and runs the model.
 """
+import contextlib
 import copy
 import itertools
+import random
+import warnings
 
 from . import core
 
@@ -19,8 +22,9 @@ ALIGN_AXES = ("sample", "observation", "both", "detect")
 
 
 # ----------------------------------------------------------------------------- observing a table
-def observe(t):
-    """(by-ID observation in table_obs format, list of incoherences between the by-ID and positional views)"""
+def observe(t, rng=None):
+    """(by-ID observation in table_obs format, list of incoherences between the by-ID and positional views);
+    with `rng` the accessors are asked in a random order"""
     pos = core.table_obs(t)
     obs, samp = pos["obs"], pos["samp"]
     if not obs or not samp or len(set(obs)) != len(obs) or len(set(samp)) != len(samp):
@@ -63,10 +67,11 @@ def observe(t):
             if [t.index(i, axis) for i in ids] != list(range(len(ids))) or not all(t.exists(i, axis) for i in ids):
                 bad.append("index(%s)" % axis)
 
-    part("get_value_by_ids", cells)
-    part("data", vectors)
-    part("metadata(id)", metadata)
-    part("index", index)
+    parts = [("get_value_by_ids", cells), ("data", vectors), ("metadata(id)", metadata), ("index", index)]
+    if rng is not None:
+        rng.shuffle(parts)
+    for name, f in parts:
+        part(name, f)
     return out, bad
 
 
@@ -97,13 +102,26 @@ PERM_FS = ["natsort", "sorted", "reverse", "bylen", "identity", "reversed", "rot
 def apply_op(t, op, rec=None):
     """run `op` on the real table `t`; returns the result (raises what the code raises)"""
     k = op["op"]
+    style = op.get("style")
     if k == "sort_order":
-        return t.sort_order(list(op["order"]), axis=op["axis"])
+        order = list(op["order"])
+        if op.get("order_type") == "tuple":
+            order = tuple(order)
+        elif op.get("order_type") == "array" and order:
+            import numpy as np
+            order = np.array(order)
+        if style == "defaults" and op["axis"] == "sample":
+            return t.sort_order(order)
+        if style == "positional":
+            return t.sort_order(order, op["axis"])
+        return t.sort_order(order, axis=op["axis"])
     if k == "sort":
         if op["f"] == "default":
             if rec is not None:
                 rec["arg"] = [str(i) for i in t.ids(axis=op["axis"])]
                 rec["ret"] = [str(i) for i in _natsort(t.ids(axis=op["axis"]))]
+            if style == "defaults" and op["axis"] == "sample":
+                return t.sort()
             return t.sort(axis=op["axis"])
         f = SORT_FS[op["f"]]
 
@@ -119,14 +137,31 @@ def apply_op(t, op, rec=None):
         if rec is not None:
             rec["other_obs"] = [str(i) for i in other.ids(axis="observation")]
             rec["other_samp"] = [str(i) for i in other.ids()]
+        if style == "defaults" and op["axis"] == "detect":
+            return t.align_to(other)
         return t.align_to(other, axis=op["axis"])
     if k == "transpose":
         return t.transpose()
     if k == "copy":
         return t.copy()
     if k == "update_ids":
-        return t.update_ids(dict((a, b) for a, b in op["id_map"]), axis=op["axis"], strict=op["strict"],
-                            inplace=op["inplace"])
+        m = dict((a, b) for a, b in op["id_map"])
+        if style == "defaults":
+            # leave out every keyword whose value is the documented default
+            kw = {}
+            if op["axis"] != "sample":
+                kw["axis"] = op["axis"]
+            if op["strict"] is not True:
+                kw["strict"] = op["strict"]
+            if op["inplace"] is not True:
+                kw["inplace"] = op["inplace"]
+            return t.update_ids(m, **kw)
+        if style == "positional":
+            return t.update_ids(m, op["axis"], op["strict"], op["inplace"])
+        if style == "numpy-values":
+            import numpy as np
+            m = {a: np.str_(b) for a, b in m.items()}
+        return t.update_ids(m, axis=op["axis"], strict=op["strict"], inplace=op["inplace"])
     # operations of other properties, used only inside histories
     if k == "filter_keep":
         t.filter(list(op["ids"]), axis=op["axis"], inplace=True)
@@ -137,17 +172,52 @@ def apply_op(t, op, rec=None):
     raise ValueError(k)
 
 
-def make_receiver(case, poke=True):
+def build_chain(case, real=True):
+    """(receiver, bystanders): every table the history went through and every table derived from the receiver
+    (case["derive"]) stays alive as a bystander [(label, table)].  On the real chain (not the twin used for
+    observing) the receiver is optionally read in full in a random accessor order (case["preread"]) and left in a
+    random layout (case["poke"])."""
     t = core.build(case["spec"], case["route"])
-    for h in case["history"]:
+    chain = [("built", t)]
+    for k, h in enumerate(case["history"]):
         t = apply_op(t, h)
-    if poke and case.get("poke") and t.shape[0] and t.shape[1]:
+        chain.append(("history[%d]:%s" % (k, h["op"]), t))
+    for k, d in enumerate(case.get("derive") or []):
+        chain.append(("derived[%d]:%s" % (k, d["op"]), apply_op(t, d)))
+    bystanders, seen = [], {id(t)}
+    for label, x in chain:
+        if id(x) not in seen:
+            seen.add(id(x))
+            bystanders.append((label, x))
+    if real and t.shape[0] and t.shape[1]:
+        if case.get("preread") is not None:
+            observe(t, random.Random(case["preread"]))
+        poke = case.get("poke")
         # reading one vector leaves the matrix CSC-backed ("col") or CSR-backed ("row")
-        if case["poke"] == "col":
+        if poke == "col":
             t.data(t.ids()[0], axis="sample")
-        else:
+        elif poke == "row":
             t.data(t.ids(axis="observation")[0], axis="observation")
-    return t
+        elif isinstance(poke, dict):
+            core.poke_layout(t, random.Random(poke["seed"]), 3)
+    return t, bystanders
+
+
+def make_receiver(case, poke=True):
+    return build_chain(case, real=poke)[0]
+
+
+@contextlib.contextmanager
+def profile(name):
+    """run under a non-default reaction to empty tables (the other kinds keep their default)"""
+    if not name:
+        yield
+        return
+    import biom.err
+    with warnings.catch_warnings():
+        warnings.simplefilter("ignore")
+        with biom.err.errstate(empty=name):
+            yield
 
 
 def safe_receiver(ctx, case, tags=()):
@@ -165,25 +235,37 @@ def evaluate(ctx, case, tags=(), nontrivial=True):
     """run case["op"] on a freshly built receiver; ask Lean; classify.  Returns (result table or None, reply)."""
     op = case["op"]
     # observing converts the matrix layout, so the receiver is observed on a twin built the same way
-    twin = safe_receiver(ctx, case, tags)
-    if twin is None:
+    try:
+        twin, twin_by = build_chain(case, real=False)
+    except Exception as e:  # noqa
+        ctx.case(case)
+        ctx.fail({"case": case}, "history.valid_operation_refused", tuple(tags) + ("history", core.err_name(e)))
         return None, None
     before, bad0 = observe(twin)
-    t = make_receiver(case)
+    by_before = [(label, observe(x)[0]) for label, x in twin_by]
+    t, bystanders = build_chain(case)
     layout_tag(ctx, t)
     rec = {}
-    try:
-        r = apply_op(t, op, rec)
-        res_obs, bad1 = observe(r)
-        result = {"ok": res_obs}
-        same = r is t
-    except Exception as e:  # noqa: the class is the observation
-        r, bad1, same = None, [], False
-        result = {"error": core.err_name(e)}
-        if core.err_name(e) == "Other":
-            result["detail"] = type(e).__name__
-    after, bad2 = observe(t)
-    req = {k: v for k, v in op.items() if k not in ("other", "other_route", "f")}
+    order_rng = random.Random(case["preread"]) if case.get("preread") is not None else None
+    with profile(case.get("profile")):
+        try:
+            r = apply_op(t, op, rec)
+            # by-ID reads of the result come first, before any other accessor touches it
+            res_obs, bad1 = observe(r, order_rng)
+            result = {"ok": res_obs}
+            same = r is t
+        except Exception as e:  # noqa: the class is the observation
+            r, bad1, same = None, [], False
+            result = {"error": core.err_name(e)}
+            if core.err_name(e) == "Other":
+                result["detail"] = type(e).__name__
+    after, bad2 = observe(t, order_rng)
+    by_bad = []
+    for (label, x), (_, was) in zip(bystanders, by_before):
+        now, bad = observe(x)
+        if bad or now != was:
+            by_bad.append((label, bad or ["content changed"]))
+    req = {k: v for k, v in op.items() if k not in ("other", "other_route", "f", "style", "order_type")}
     req["table"] = before
     req["obs"] = {"result": result, "after": after, "same": same}
     if op["op"] == "sort":
@@ -199,9 +281,24 @@ def evaluate(ctx, case, tags=(), nontrivial=True):
     ctx.case(case, nontrivial=nontrivial)
     tags = tuple(tags) + (op["op"], "route=" + case["route"], "history=%d" % len(case["history"]))
     full = {"case": case, "request": req}
+    if case.get("profile") == "raise" and \
+            ((op["op"] == "sort_order" and not op["order"]) or (op["op"] == "sort" and not req["sorted"])):
+        # the caller asked for empty tables to be an error: the empty reorder must be refused as one, the
+        # receiver must be left as it was (the model describes the default profile, so Lean is not asked)
+        ctx.count("profile=empty:raise refused-empty-result")
+        if result != {"error": "TableException"} or after != before or bad2:
+            ctx.fail(full, "%s.empty_result_under_empty_raise" % op["op"], tags)
+        return None, None
     for nm, bad in (("receiver", bad0), ("result", bad1), ("receiver-after", bad2)):
         if bad:
             ctx.fail(full, "index.by_id_view_equals_positional_view", tags + (nm,) + tuple(bad))
+    for label, bad in by_bad:
+        # a table that is neither the receiver nor the result changed, or no longer answers by its own lookups
+        ctx.fail(full, "bystander.unchanged_and_coherent", tags + (label,) + tuple(bad))
+    if bystanders:
+        ctx.count("bystanders=%d" % min(len(bystanders), 4))
+    if case.get("profile"):
+        ctx.count("profile=empty:%s" % case["profile"])
     rep = ctx.driver.ask(req)
     ctx.count("op=%s" % op["op"])
     ctx.count("outcome=%s:%s" % (op["op"], "ok" if "ok" in result else result["error"]))
@@ -240,7 +337,21 @@ def random_perm(rng, ids):
 
 
 NEW_ID_POOL = ["n%d" % i for i in range(40)] + ["a_much_longer_id", "long id with spaces / and slash", "é-new",
-                                                 "日本語のID", "x", "Q" * 33, "z.z", "p|q"]
+                                                 "日本語のID", "x", "Q" * 33, "z.z", "p|q", "tail blank ", "line end\n",
+                                                 " lead blank", "ÅÄÖåäö", "tab\tin"]
+
+
+def odd_id_text(rng, spec):
+    """make some IDs of a spec look alike: trailing blank / newline, case variant, extension of another ID"""
+    for key, mdkey in (("obs", "omd"), ("samp", "smd")):
+        ids = spec[key]
+        for _ in range(rng.choice([1, 1, 2])):
+            k = rng.randrange(len(ids))
+            other = ids[rng.randrange(len(ids))]
+            cand = rng.choice([ids[k] + " ", ids[k] + "\n", other + "0", other.lower(), other.upper(), " " + other,
+                               other + other, other[:-1] or other])
+            if cand and cand not in ids:
+                ids[k] = cand
 
 
 def gen_map(rng, ids, kind):
@@ -285,6 +396,27 @@ def gen_map(rng, ids, kind):
     if kind == "extra-keys":
         keep = [i for i in ids if rng.random() < 0.7] or ids[:1]
         return [[i, fresh[k]] for k, i in enumerate(keep)] + [["absent %d" % k, fresh[n + k]] for k in range(2)]
+    if kind == "lookalike-keys":
+        # keys that are NOT ids of the axis but look like them: nothing may be renamed through them
+        look = core.tricky_unknown_ids(ids)[:4]
+        keep = [i for i in ids if rng.random() < 0.4]
+        return [[i, fresh[k]] for k, i in enumerate(keep)] + [[x, fresh[n + k]] for k, x in enumerate(look)]
+    if kind == "same-length":
+        # new names exactly as long as the old ones
+        out, used = [], set(ids)
+        for i in ids:
+            c = "~" * len(i)
+            j = 0
+            while c in used:
+                j += 1
+                c = ("%d" % j + "~" * len(i))[:len(i)] if len(i) > len("%d" % j) else None
+                if c is None:
+                    break
+            if c is None:
+                continue
+            used.add(c)
+            out.append([i, c])
+        return out or [[ids[0], ids[0]]]
     if kind == "extra-keys-long-value":
         return [["absent", "v" * 40]] + [[i, fresh[k]] for k, i in enumerate(ids)]
     if kind == "only-absent-keys":
@@ -300,7 +432,7 @@ def gen_map(rng, ids, kind):
 
 MAP_KINDS = ["total-injective", "partial-injective", "lengthen", "lengthen-total", "shorten", "shorten-partial",
              "shorten-prefix", "swap", "cycle", "collide-total", "collide-with-kept", "extra-keys",
-             "extra-keys-long-value", "only-absent-keys", "identity", "missing-one"]
+             "extra-keys-long-value", "only-absent-keys", "identity", "missing-one", "lookalike-keys", "same-length"]
 
 
 def gen_other(rng, t_obs, t_samp, how):
@@ -319,7 +451,8 @@ def gen_other(rng, t_obs, t_samp, how):
             return random_perm(rng, ids + [prefix + " extra"])
         if rel == "replaced":
             p = random_perm(rng, ids)
-            p[0] = prefix + " other"
+            look = [x for x in core.tricky_unknown_ids(ids) if x not in p]
+            p[0] = rng.choice(look) if look and rng.random() < 0.7 else prefix + " other"
             return p
         if rel == "disjoint":
             return [prefix + "%d" % k for k in range(len(ids))]
@@ -468,9 +601,17 @@ def op_stream(ctx, n, max_dim):
                     for k in range(len(ids)):
                         if rng.random() < 0.5:
                             spec[key][k] = {}
+        if rng.random() < 0.2:
+            odd_id_text(rng, spec)
         route = rng.choice(core.ROUTES)
         hist = gen_history(ctx, rng, spec, route, 3)
-        base = mk_case(spec, route, hist, None, rng.choice([None, "col", "row"]))
+        base = mk_case(spec, route, hist, None, rng.choice([None, "col", "row", {"seed": rng.randrange(10 ** 6)},
+                                                            {"seed": rng.randrange(10 ** 6)}]))
+        if rng.random() < 0.3:
+            base["preread"] = rng.randrange(10 ** 6)
+        if rng.random() < 0.15:
+            base["profile"] = rng.choice(["raise", "raise", "warn", "call"])
+        style = rng.choice([None, None, "defaults", "positional", "numpy-values"])
         t0 = safe_receiver(ctx, dict(base, op={"op": "copy"}), ("random",))
         if t0 is None:
             continue
@@ -487,12 +628,15 @@ def op_stream(ctx, n, max_dim):
             elif kind == "dup":
                 order = order + [order[0]]
             elif kind == "unknown":
-                order[rng.randrange(len(order))] = "not an id"
+                look = core.tricky_unknown_ids(ids[ax])
+                order[rng.randrange(len(order))] = rng.choice(look) if look and rng.random() < 0.7 else "not an id"
             elif kind == "dup+unknown":
-                order = [order[0]] + order + ["not an id"]
+                look = core.tricky_unknown_ids(ids[ax])
+                order = [order[0]] + order + [rng.choice(look) if look else "not an id"]
             elif kind == "empty":
                 order = []
-            case = dict(base, op={"op": "sort_order", "order": order, "axis": ax})
+            case = dict(base, op={"op": "sort_order", "order": order, "axis": ax, "style": style,
+                                  "order_type": rng.choice([None, None, "tuple", "array"])})
             r, _ = evaluate(ctx, case, ("random", "order=" + kind), nontrivial=len(ids[ax]) >= 2)
             ctx.count("order-kind=%s" % kind)
             if kind == "perm":
@@ -504,7 +648,7 @@ def op_stream(ctx, n, max_dim):
                     check_restored(ctx, back, t0_obs, r2, "sort_order_then_inverse")
         elif pick < 0.34:
             f = rng.choice(list(SORT_FS) + ["default", "default"])
-            case = dict(base, op={"op": "sort", "f": f, "axis": ax})
+            case = dict(base, op={"op": "sort", "f": f, "axis": ax, "style": style})
             evaluate(ctx, case, ("random", "sort_f=" + f), nontrivial=len(ids[ax]) >= 2)
             ctx.count("sort_f=%s" % f)
         elif pick < 0.56:
@@ -514,7 +658,8 @@ def op_stream(ctx, n, max_dim):
             other = gen_other(rng, ids["observation"], ids["sample"], how)
             oroute = rng.choice(["dense", "csc", "sort_roundtrip"])
             for a in ALIGN_AXES + (("bogus",) if rng.random() < 0.1 else ()):
-                case = dict(base, op={"op": "align_to", "other": other, "other_route": oroute, "axis": a})
+                case = dict(base, op={"op": "align_to", "other": other, "other_route": oroute, "axis": a,
+                                      "style": style})
                 evaluate(ctx, case, ("random", "align=%s/%s" % how))
                 ctx.count("align-relation=%s/%s" % tuple("equal" if h in ("same", "permuted", "reversed") else "unequal"
                                                          for h in how))
@@ -535,7 +680,7 @@ def op_stream(ctx, n, max_dim):
             for strict in (True, False):
                 for inplace in (True, False):
                     case = dict(base, op={"op": "update_ids", "id_map": m, "axis": ax, "strict": strict,
-                                          "inplace": inplace})
+                                          "inplace": inplace, "style": style})
                     r, _ = evaluate(ctx, case, ("random", "map=" + kind))
                     if r is not None and kind in ("total-injective", "lengthen-total", "shorten", "cycle") and not inplace:
                         inv = [[b, a] for a, b in m]
@@ -544,6 +689,71 @@ def op_stream(ctx, n, max_dim):
                         r2, _ = evaluate(ctx, back, ("random", "inverse-renaming"))
                         if r2 is not None:
                             check_restored(ctx, back, t0_obs, r2, "rename_then_inverse")
+
+
+def aliasing_stream(ctx, specs):
+    """tables derived from one another stay alive; one of them is renamed IN PLACE (names that fit the width of
+    the existing ID array: shorter, same length, a rotation of the existing IDs); every other live table must be
+    unchanged and must still answer through its own lookups"""
+    rng = ctx.rng
+    for spec in specs:
+        for dk in ("sort_order", "sort", "transpose", "copy", "align_to", "update_ids"):
+            for direction in ("rename-derived", "rename-source"):
+                for ax in AX:
+                    dax = rng.choice(AX)
+                    if dk == "sort_order":
+                        d = {"op": dk, "order": random_perm(rng, spec["obs" if dax == "observation" else "samp"]),
+                             "axis": dax}
+                    elif dk == "sort":
+                        d = {"op": dk, "f": rng.choice(["default", "reverse", "rotate"]), "axis": dax}
+                    elif dk == "align_to":
+                        d = {"op": dk, "other": gen_other(rng, spec["obs"], spec["samp"], ("permuted", "reversed")),
+                             "axis": "both"}
+                    elif dk == "update_ids":
+                        d = {"op": dk, "id_map": gen_map(rng, spec["obs" if dax == "observation" else "samp"],
+                                                         "partial-injective"),
+                             "axis": dax, "strict": False, "inplace": False}
+                    else:
+                        d = {"op": dk}
+                    case = mk_case(spec, "dense", [d] if direction == "rename-derived" else [], None,
+                                   rng.choice([None, "col", {"seed": rng.randrange(10 ** 6)}]))
+                    if direction == "rename-source":
+                        case["derive"] = [d, {"op": "transpose"}]
+                    ids = ids_of(dict(case, op={"op": "copy"}), ax)
+                    kind = rng.choice(["shorten", "same-length", "cycle", "swap", "shorten-partial"])
+                    case["op"] = {"op": "update_ids", "id_map": gen_map(rng, ids, kind), "axis": ax,
+                                  "strict": False, "inplace": True}
+                    evaluate(ctx, case, ("aliasing", direction, "derived-by=" + dk, "map=" + kind))
+                    ctx.count("aliasing=%s/%s" % (direction, dk))
+
+
+def wide_stream(ctx, n):
+    """a few tables with >= 64 IDs on one axis, arguments in non-axis order"""
+    rng = ctx.rng
+    for k in range(n):
+        wax = AX[k % 2]
+        spec = core.wide_spec(rng, axis=wax, md=(k % 3 == 0))
+        ids = spec["samp"] if wax == "sample" else spec["obs"]
+        route = rng.choice(["dense", "csc", "csr_unsorted"])
+        poke = {"seed": rng.randrange(10 ** 6)}
+        perm = random_perm(rng, ids)
+        case = mk_case(spec, route, [], {"op": "sort_order", "order": perm, "axis": wax}, poke)
+        r, _ = evaluate(ctx, case, ("wide",))
+        if r is not None:
+            back = mk_case(spec, route, [case["op"]], {"op": "sort_order", "order": list(ids), "axis": wax}, poke)
+            r2, _ = evaluate(ctx, back, ("wide", "inverse"))
+            if r2 is not None:
+                check_restored(ctx, back, observe(core.build(spec, route))[0], r2, "sort_order_then_inverse")
+        evaluate(ctx, mk_case(spec, route, [case["op"]], {"op": "transpose"}, poke), ("wide",))
+        evaluate(ctx, mk_case(spec, route, [], {"op": "sort", "f": rng.choice(["default", "reverse"]), "axis": wax},
+                              poke), ("wide",))
+        evaluate(ctx, mk_case(spec, route, [case["op"]],
+                              {"op": "update_ids", "id_map": gen_map(rng, ids, rng.choice(["lengthen-total", "cycle"])),
+                               "axis": wax, "strict": True, "inplace": k % 2 == 0}, poke), ("wide",))
+        other = gen_other(rng, spec["obs"], spec["samp"], ("permuted", "permuted"))
+        evaluate(ctx, mk_case(spec, route, [], {"op": "align_to", "other": other, "axis": rng.choice(["both", "detect"])},
+                              poke), ("wide",))
+        ctx.count("wide-axis-length=%d" % len(ids))
 
 
 def small_specs(rng):
@@ -577,13 +787,17 @@ def run(ctx):
     quick = ctx.quick()
     specs = small_specs(ctx.rng)
     degenerate_stream(ctx, specs)
+    # a call with a user function first, default calls afterwards (nothing may stick at module level)
+    evaluate(ctx, mk_case(specs[0], "dense", [], {"op": "sort", "f": "reverse", "axis": "sample"}), ("fixed",))
     fixed_corpus(ctx)
+    aliasing_stream(ctx, specs[:2] if quick else specs)
+    wide_stream(ctx, 2 if quick else 12)
     routes = ["dense", "csc", "csr_unsorted"] if quick else list(core.ROUTES)
     exhaustive_perms(ctx, specs[:3] if quick else specs, routes if not quick else routes[:2])
     ctx.exhaustive = False
     if quick:
-        op_stream(ctx, 700, 6)
-        op_stream(ctx, 250, 9)
+        op_stream(ctx, 520, 6)
+        op_stream(ctx, 170, 9)
     else:
         op_stream(ctx, 16000, 6)
         op_stream(ctx, 9000, 12)
